@@ -133,36 +133,7 @@ func runC12(c *engine.Ctx) {
 	c.Floor(n, 2)
 
 	// ---- R2 ----
-	c.Rule("R2", "ControlManager.Del removes the run id only when the stored control is the very control that ended")
-	if df := fn(c, "server.ControlManager.Del"); df != nil {
-		n = 0
-		engine.ForEachInstr(df, func(in ssa.Instruction) {
-			call, ok := in.(ssa.CallInstruction)
-			if !ok {
-				return
-			}
-			b, ok := call.Common().Value.(*ssa.Builtin)
-			if !ok || b.Name() != "delete" {
-				return
-			}
-			n++
-			c.AllPaths("server.ControlManager.Del", engine.PathCheck{Fn: df, Sink: engine.Is(in), Pred: func(st *engine.PathState) string {
-				eq, k := st.Equal(isParam("ctl"), func(v ssa.Value) bool {
-					ex, ok := v.(*ssa.Extract)
-					if !ok || ex.Index != 0 {
-						return false
-					}
-					_, isLk := ex.Tuple.(*ssa.Lookup)
-					return isLk
-				})
-				if !(k && eq) {
-					return "the run id is deleted without the stored control having been found identical to the ended one: late cleanup of an old session removes its successor"
-				}
-				return ""
-			}}, "delete-if-same")
-		})
-		c.Floor(n, 1)
-	}
+	checkDelIfSame(c, "R2")
 
 	// ---- R3 ----
 	c.Rule("R3", "proxy.Manager.Add inserts only an absent name and reports an error for a live one; RegisterProxy refuses a live name before running the proxy")
@@ -335,4 +306,65 @@ func runC12(c *engine.Ctx) {
 		}
 	}
 	c.Floor(n, 2)
+
+	// ---- R9 registrations and close requests of one session are handled in order (shared with C10.R14): the teardown
+	// of a session also waits for a registration that is still in progress ----
+	checkOrderedHandlers(c, "R9")
+
+	// ---- R10 the name a proxy is registered under is the name it owns ----
+	c.Rule("R10", "ProxyBaseConfig.UnmarshalFromMsg copies NewProxy.ProxyName into Name verbatim (no trimming or case change): RegisterProxy registers the name under the message's spelling and every removal uses the proxy's own Name")
+	if f := fn(c, "pkg/config/v1.ProxyBaseConfig.UnmarshalFromMsg"); f != nil {
+		nameF := field(c, "pkg/config/v1", "ProxyBaseConfig", "Name")
+		pnF := field(c, "pkg/msg", "NewProxy", "ProxyName")
+		k := 0
+		engine.ForEachInstr(f, func(in ssa.Instruction) {
+			st, ok := in.(*ssa.Store)
+			if !ok {
+				return
+			}
+			if lf, _ := engine.LoadedField(st.Addr); lf != nameF || nameF == nil {
+				return
+			}
+			k++
+			lf, _ := engine.LoadedField(engine.Unwrap(st.Val))
+			c.Check(lf == pnF && pnF != nil, "pkg/config/v1.ProxyBaseConfig.UnmarshalFromMsg>name-verbatim", in.Pos(), 1, []string{"stored: " + engine.Describe(st.Val)},
+				"Name is the message's ProxyName, unmodified")
+		})
+		c.Floor(k, 1)
+	}
+}
+
+// checkDelIfSame (C12.R2, shared as C14.R8): late cleanup of an ended session never removes its successor.
+func checkDelIfSame(c *engine.Ctx, rule string) {
+	c.Rule(rule, "ControlManager.Del removes the run id only when the stored control is the very control that ended")
+	if df := fn(c, "server.ControlManager.Del"); df != nil {
+		n := 0
+		engine.ForEachInstr(df, func(in ssa.Instruction) {
+			call, ok := in.(ssa.CallInstruction)
+			if !ok {
+				return
+			}
+			b, ok := call.Common().Value.(*ssa.Builtin)
+			if !ok || b.Name() != "delete" {
+				return
+			}
+			n++
+			c.AllPaths("server.ControlManager.Del", engine.PathCheck{Fn: df, Sink: engine.Is(in), Pred: func(st *engine.PathState) string {
+				eq, k := st.Equal(isParam("ctl"), func(v ssa.Value) bool {
+					ex, ok := v.(*ssa.Extract)
+					if !ok || ex.Index != 0 {
+						return false
+					}
+					_, isLk := ex.Tuple.(*ssa.Lookup)
+					return isLk
+				})
+				if !(k && eq) {
+					return "the run id is deleted without the stored control having been found identical to the ended one: late cleanup of an old session removes its successor"
+				}
+				return ""
+			}}, "delete-if-same")
+		})
+		c.Floor(n, 1)
+	}
+
 }
